@@ -57,7 +57,7 @@ func init() { Register(c01{}) }
 func (c01) ID() string       { return "C01" }
 func (c01) New() interface{} { return &C01Case{} }
 func (c01) Rule() string {
-	return "each run: a start container (alignment or sequence set; empty, one row, one column, mixed case and colliding names included; one of the three duplicate-name policies) and a history of 1-12 operations out of 48 kinds (add with right / wrong length and fresh / existing name, append, concat, rename, rename-regexp, clean-names, trim-names, trim-names-auto, append-identifier, sort, shuffle, filter-length, deduplicate, remove-gap-seqs, remove-character-seqs, translate in one or three phases, clone, sample, clear, sub-align, select-sites, transpose, unalign, replace, replace-match-chars, mask, case changes, set-policy, remove-gap-sites, remove-character-sites, remove-majority-sites, compress, trim-sequences; and, held to the invariants and to what they conserve, swap, recombine, shuffle-sites, add-gaps, mutate, simulate-rogue, mask-unique, mask-occurences, rand-sub-align) with arguments resolved against the current content; after every operation all access paths are compared with each other and with the list model (operations whose documentation does not fix the result are only held to the invariants, after which the model is re-read from the container). Distinct = distinct sequence of operation kinds + start shape; non-trivial = at least 2 operations that change the container."
+	return "each run: a start container (alignment or sequence set; empty, one row, one column, mixed case and colliding names included; one of the three duplicate-name policies) and a history of 1-12 operations out of 49 kinds (add with right / wrong length and fresh / existing name, append, concat, rename, rename-regexp, clean-names, trim-names, trim-names-auto, append-identifier, sort, shuffle, filter-length, deduplicate, remove-gap-seqs, remove-character-seqs, translate in one or three phases or along a reference row, clone, sample, clear, sub-align, select-sites, transpose, unalign, replace, replace-match-chars, mask, case changes, set-policy, remove-gap-sites, remove-character-sites, remove-majority-sites, compress, trim-sequences; and, held to the invariants and to what they conserve, swap, recombine, shuffle-sites, add-gaps, mutate, simulate-rogue, mask-unique, mask-occurences, rand-sub-align) with arguments resolved against the current content; after every operation all access paths are compared with each other and with the list model (operations whose documentation does not fix the result are only held to the invariants, after which the model is re-read from the container). Distinct = distinct sequence of operation kinds + start shape; non-trivial = at least 2 operations that change the container."
 }
 
 var c01Names = []string{"a", "b", "c", "A", "seq1", "seq2", "a_0001", "s:1", " x", "t.1|u", "Seq_10", "zz"}
@@ -74,7 +74,7 @@ var c01Kinds = []string{"add", "add", "add", "append", "concat", "rename", "rena
 	"sort", "sort", "shuffle", "filter-length", "deduplicate", "remove-gap-seqs", "translate", "clone", "sample", "clear", "sub-align", "unalign", "replace", "to-upper", "to-lower", "set-policy",
 	"remove-gap-sites", "trim-sequences", "remove-majority-sites", "remove-character-sites", "compress",
 	"select-sites", "transpose", "mask", "mask", "remove-character-seqs", "replace-match-chars",
-	"swap", "recombine", "shuffle-sites", "add-gaps", "mutate", "simulate-rogue", "mask-unique", "mask-occurences", "rand-sub-align"}
+	"swap", "recombine", "shuffle-sites", "add-gaps", "mutate", "simulate-rogue", "mask-unique", "mask-occurences", "rand-sub-align", "translate-by-reference"}
 
 func (c01) Gen(rs uint64, tier string, race bool) interface{} {
 	r := NewRand(rs)
@@ -1198,6 +1198,29 @@ func (c01) Run(ctx *Ctx, ci interface{}) (o Outcome) {
 					}
 				}
 				m.rows[i].Seq = string(b)
+			}
+		case "translate-by-reference":
+			// codon by codon along a reference row, gaps of the reference skipped: the documentation fixes the result by
+			// examples only; held to the invariants (every row as long as Length() says, names and order kept)
+			if !isAl || n == 0 || cont.Alphabet() != align.NUCLEOTIDS || m.dupNames() {
+				applied = false
+				break
+			}
+			modelled = false
+			if err := al.TranslateByReference(op.N%3, 0, m.rows[op.I%n].Name); err != nil {
+				o.Add("operation_errors_outside_the_statement", 1)
+			} else {
+				rows, _ := observe(cont)
+				if len(rows) != n {
+					fail("differs-from-model", "TranslateByReference changes the number of rows from %d to %d", n, len(rows))
+					return
+				}
+				for i := range rows {
+					if rows[i].Name != m.rows[i].Name {
+						fail("differs-from-model", "TranslateByReference changes the name of row %d from %q to %q", i, m.rows[i].Name, rows[i].Name)
+						return
+					}
+				}
 			}
 		case "swap", "recombine", "shuffle-sites", "add-gaps", "mutate", "simulate-rogue", "mask-unique", "mask-occurences", "rand-sub-align":
 			// randomised or data-dependent edits: held to the invariants, to what they may not touch (names, order,
